@@ -124,6 +124,10 @@ class C10(Prop):
                 "NV.C10.handle_unique",
                 "NV.C10.deltas_ok",
                 "NV.C10.handles_fit_int",
+                "NV.C10.handleC_exact",
+                "NV.C10.handleC_overflow_witness",
+                "NV.C10.C10_handles_Full_false",
+                "NV.C10.handleC_collision_witness",
                 "NV.C10.time_left_fits_int"]
     consts = [("calloutCycleSize", "CALLOUT_CYCLE_SIZE")]
     const_headers = ["lib/efuns/options.h"]
@@ -267,6 +271,8 @@ class C10(Prop):
                     "vapply o1 do_op co,3,2,d", "vapply o1 set_script co:Aa coa,0,1,Ae;dest,o2", "adv 2", "sweep",
                     "adv 1", "sweep", "vapply o1 do_op coafp,1,40,Af", "vapply o1 do_op rmh,Af", "vapply o1 do_op coa,1,1,Ag",
                     "vapply o1 do_op reload", "adv 1", "sweep"], nobj=3)
+        mk("call_out-by-destructed", ["vapply o1 do_op co,0,2,a", "vapply o1 do_op destco,o1", "vapply o2 set_script co:b destco,o2",
+                                      "vapply o2 do_op co,1,1,b", "adv 1", "sweep", "adv 1", "sweep"])
         mk("reschedule-chain", ["vapply o1 set_script co:a co,0,1,b", "vapply o1 set_script co:b co,0,32,c",
                                 "vapply o1 set_script co:c co,0,31,d", "vapply o1 do_op co,0,1,a", "adv 1", "sweep",
                                 "adv 1", "sweep", "adv 32", "sweep", "adv 31", "sweep"])
@@ -301,7 +307,10 @@ class C10(Prop):
                 fns = st["fns"].get(self_obj, [])
                 ops.append("%s,%d" % (k, rng.choice(fns) if fns and rng.chance(3, 4) else rng.below(4)))
             elif k == "dest":
-                ops.append("dest,o%d" % rng.range(1, st["nobj"]))
+                if rng.chance(1, 3):
+                    ops.append("destco,o%d" % self_obj)       # self-destruct + a call_out that must be refused
+                else:
+                    ops.append("dest,o%d" % rng.range(1, st["nobj"]))
             else:
                 ops.append(k)
         return ops
@@ -338,7 +347,7 @@ class C10(Prop):
 
     def histogram(self, cases, impl):
         """branch histogram of a run (generator audit): which mechanisms of call_out.c the cases reached"""
-        keys = ["co", "cofp", "co_by_destructed", "co_with_player", "co_with_4_args", "delay_lt1", "delay_lt_wheel", "delay_eq_wheel",
+        keys = ["co", "cofp", "co_by_destructed", "co_with_player", "co_with_4_args", "destco_refusal_probes", "delay_lt1", "delay_lt_wheel", "delay_eq_wheel",
                 "delay_gt_wheel", "delay_ge_2^31", "fires", "fires_with_player", "fp_owner_destructed",
                 "rmh_hit", "rmh_miss", "rmn_hit", "rmn_miss", "fh_hit", "fh_miss", "fn_hit", "fn_miss",
                 "answer_negative_overdue", "answer_int_converted", "rmall", "reload", "usage", "usage_second_chunk",
@@ -348,6 +357,7 @@ class C10(Prop):
         h = dict((k, 0) for k in keys)
         for c in cases:
             h["gop"] += sum(1 for l in c.lines if l.startswith("gop "))
+            h["destco_refusal_probes"] += sum(l.count("destco,") for l in c.lines)
             last_tick = None
             in_cb = False
             fires_this_tick = 0
